@@ -29,6 +29,10 @@ pub struct Violation {
     /// stable name of the oracle clause that failed; minimisation keeps it fixed
     pub clause: String,
     pub detail: String,
+    /// index of the fault case that failed, when there is one (lets the
+    /// minimiser go straight to it)
+    #[serde(default)]
+    pub case: Option<usize>,
 }
 
 pub type Check = Result<(), Violation>;
@@ -40,6 +44,7 @@ pub fn fail(mask: Mask, prop: &'static str, clause: &str, detail: impl FnOnce() 
             property: prop.to_string(),
             clause: clause.to_string(),
             detail: detail(),
+            case: CASE.with(|c| c.get()),
         })
     } else {
         probe("suppressed.other_property_clause_failed");
@@ -51,6 +56,12 @@ thread_local! {
     static PROBES: RefCell<BTreeMap<&'static str, u64>> = const { RefCell::new(BTreeMap::new()) };
     static LOG: RefCell<Fnv> = RefCell::new(Fnv::new());
     static PANIC_MSG: RefCell<Option<String>> = const { RefCell::new(None) };
+    static CASE: std::cell::Cell<Option<usize>> = const { std::cell::Cell::new(None) };
+}
+
+/// Announce which fault case is being executed (None: outside the cases).
+pub fn set_case(c: Option<usize>) {
+    CASE.with(|x| x.set(c));
 }
 
 #[inline]
